@@ -93,6 +93,34 @@ pub fn json_str(s: &str) -> String {
 
 /// Pipes all operation lines of all cases through the Lean driver and compares line by line.
 /// Cases are split into chunks that run through separate driver processes in parallel.
+/// Canonical form for comparison: the space-separated tokens between a `{` token and the matching
+/// `}` token form an unordered group (the property does not fix their order) and are sorted.  Both
+/// sides print the braces at the same places; everything else is compared verbatim.
+pub fn canon_groups(s: &str) -> String {
+    if !s.contains('{') {
+        return s.to_string();
+    }
+    let mut out: Vec<String> = vec![];
+    let mut group: Option<Vec<String>> = None;
+    for t in s.split(' ') {
+        match (t, group.as_mut()) {
+            ("{", None) => group = Some(vec![]),
+            ("}", Some(_)) => {
+                let mut g = group.take().unwrap();
+                g.sort();
+                out.push(format!("{{ {} }}", g.join(" ")));
+            }
+            (_, Some(g)) => g.push(t.to_string()),
+            (_, None) => out.push(t.to_string()),
+        }
+    }
+    if let Some(g) = group {
+        out.push("{".into());
+        out.extend(g);
+    }
+    out.join(" ")
+}
+
 pub fn compare_with_model(driver: &Path, cases: &[Case], workdir: &Path, tag: &str) -> Result<Vec<Disagreement>, String> {
     std::fs::create_dir_all(workdir).map_err(|e| e.to_string())?;
     let workers = std::thread::available_parallelism().map(|n| n.get()).unwrap_or(4).min(cases.len().max(1));
@@ -167,7 +195,7 @@ fn compare_chunk(driver: &Path, cases: &[&Case], workdir: &Path, tag: &str) -> R
         let mut diverged = false;
         for (i, (op, impl_out)) in c.steps.iter().enumerate() {
             let m = lines.next().ok_or_else(|| format!("model driver output truncated at case {}", c.id))?;
-            if !diverged && m != impl_out {
+            if !diverged && m != impl_out && canon_groups(m) != canon_groups(impl_out) {
                 diverged = true; // report only the first divergence of a case
                 dis.push(Disagreement {
                     case_id: c.id.clone(),
